@@ -94,11 +94,16 @@ def pipeline(ctx, mod, args):
         okd, outd = common.lean_build([], ctx.log)        # driver only
         if not okd:
             ctx.broke("driver-build", outd)
+        else:
+            try:
+                common.snapshot_driver()
+            except common.LeanError as e:
+                ctx.broke("driver-build", str(e))
         ok, out = common.lean_build(targets, ctx.log)
         if not ok:
             ctx.broke("proof:lake build " + " ".join(targets), out)
         # 3. audit -----------------------------------------------------------------------------
-        hits = common.grep_forbidden()
+        hits = common.grep_forbidden(pid)
         if hits:
             ctx.broke("audit:forbidden-token", "\n".join(hits))
         if ok:
